@@ -161,6 +161,22 @@ func c11Run(r *core.Run) {
 	}
 	r.Sample("honest world %s: accepted at base / collateral / collateral+revocation in raw, parsed and field-built form", w.Describe())
 
+	// One options value used at a rising checking level (a long-lived verifier that switches
+	// revocation checking on): every call must still accept the honest quote.
+	{
+		lv := worldOpts(w, O0)
+		for _, level := range []int{O0, O1, O2, O1, O2} {
+			lv.GetCollateral, lv.CheckRevocations = level >= O1, level == O2
+			o := verifyRaw(raw, lv)
+			r.Eval()
+			if !o.Accepted() {
+				r.Violate("C11:honest-rejected-after-level-change:"+errClass(o), "honest quote rejected at level %s through an options value that had been used at other levels before: %s", optNames[level], o.ErrText())
+				break
+			}
+		}
+		r.Probe("level_raised_on_shared_options")
+	}
+
 	// Recovery (bounded liveness): after faulted verifications stop, the very next
 	// verification of the honest quote succeeds — also through the SAME options value.
 	shared := worldOpts(w, O2)
